@@ -55,7 +55,9 @@ where
     {
         let brk_size: usize = brk_infos.size();
 
-        if block_size > 1 {
+        // `blind_rotation_execute` takes the extended block-binary path whenever the table is extended,
+        // also for a block size of one.
+        if block_size > 1 || extension_factor > 1 {
             let cols: usize = (brk_infos.rank() + 1).into();
             let dnum: usize = brk_infos.dnum().into();
             let acc_dft: usize = self.bytes_of_vec_znx_dft(cols, dnum) * extension_factor;
